@@ -33,8 +33,69 @@ def default_val(ty):
     return ("bv", ty.width, 0)
 
 
+def bv_exhaustive(ctx, env, widths):
+    """every bit-vector operator on every operand value at every width in `widths`"""
+    m = env.formula_manager
+    out = []
+    for w in widths:
+        vals = [m.BV(v, w) for v in range(1 << w)]
+        un = [m.BVNot, m.BVNeg, m.BVToNatural]
+        bi = [m.BVAnd, m.BVOr, m.BVXor, m.BVAdd, m.BVSub, m.BVMul, m.BVUDiv, m.BVURem, m.BVSDiv, m.BVSRem,
+              m.BVLShl, m.BVLShr, m.BVAShr, m.BVComp, m.BVConcat, m.BVULT, m.BVULE, m.BVSLT, m.BVSLE]
+        for a in vals:
+            for f in un:
+                out.append(f(a))
+            for lo in range(w):
+                for hi in range(lo, w):
+                    out.append(m.BVExtract(a, lo, hi))
+            for k in range(w + 1):
+                out.append(m.BVRol(a, k))
+                out.append(m.BVRor(a, k))
+            for k in range(3):
+                out.append(m.BVZExt(a, k))
+                out.append(m.BVSExt(a, k))
+            for b in vals:
+                for f in bi:
+                    out.append(f(a, b))
+    return out
+
+
+def run_ground(ctx, env, formulas, tag):
+    lines, meta = [], []
+    model = EagerModel({}, env)
+    for f in formulas:
+        try:
+            r = model.get_value(f)
+            out = ("ok", semantic.fnode_to_val(r))
+        except PysmtException as e:
+            out = ("err", type(e).__name__)
+        lines.append("evalc N 0 0 0 " + wire.enc_term(f))
+        meta.append((f, out))
+    try:
+        answers = ctx.lean_run_sharded("Sem", lines)
+    except common.LeanError as e:
+        ctx.report_l("driver Sem does not run", str(e))
+        return
+    for line, ans, (f, out) in zip(lines, answers, meta):
+        ctx.case(line)
+        ctx.count(tag)
+        if ans.startswith("bad-op"):
+            ctx.infra("Sem driver rejected a request: %s :: %s" % (ans, semantic.readable(f)))
+            continue
+        expected = semantic.parse_val(ans)
+        rep = {"formula": semantic.readable(f), "mode": "ground", "request": line, "lean": ans, "impl": repr(out),
+               "assignment": []}
+        if out[0] == "err" or out[1] != expected:
+            ctx.report_s({"oracle": "eval", "kind": "wrong-ground-value", "root": wire.OPNAMES[f.node_type()]},
+                         "ground %s folded to %r, SMT-LIB value is %r" % (semantic.readable(f), out, expected), rep)
+
+
 def run(ctx):
-    n = 2500 if ctx.tier == "quick" else 40000
+    n = 6000 if ctx.tier == "quick" else 60000
+    genv = Environment()
+    widths = (1, 2, 3) if ctx.tier == "quick" else (1, 2, 3, 4)
+    run_ground(ctx, genv, bv_exhaustive(ctx, genv, widths), "bv_exhaustive")
+    ctx.extra["bv_exhaustive_widths"] = list(widths)
     env = Environment()
     uni = gen.Universe(env, theories=("bool", "int", "real", "bv", "str", "arr"))
     fg = gen.FormulaGen(ctx.rng, uni, max_depth=4, quant_prob=0.0)
